@@ -302,6 +302,35 @@ mod minicbor_model {
         assert!(cur.position() == 1 && cur.get_ref()[0] == byte);
     }
 
+    /// minicbor's own `impl Encode / Decode for u8, u16, u32, u64` are its head writers / readers (stub: axiom_primitive_codecs)
+    #[kani::proof]
+    #[kani::unwind(11)]
+    fn stub_primitive_codecs() {
+        let v: u64 = kani::any();
+        let which: u8 = kani::any();
+        let mut out = [0u8; 10];
+        let mut cur = minicbor::encode::write::Cursor::new(&mut out[..]);
+        let val: u64 = match which % 4 {
+            0 => { if minicbor::encode(&(v as u8), &mut cur).is_err() { assert!(false); } v as u8 as u64 }
+            1 => { if minicbor::encode(&(v as u16), &mut cur).is_err() { assert!(false); } v as u16 as u64 }
+            2 => { if minicbor::encode(&(v as u32), &mut cur).is_err() { assert!(false); } v as u32 as u64 }
+            _ => { if minicbor::encode(&v, &mut cur).is_err() { assert!(false); } v }
+        };
+        let (model, k) = head_enc_exec(0, val);
+        assert!(cur.position() == k);
+        let mut j = 0;
+        while j < 9 { if j < k { assert!(cur.get_ref()[j] == model[j]); } j += 1; }
+        // decoding side: `decode::<uN>` is the uN reader
+        let (buf, len, _) = input();
+        let i = &buf[..len];
+        let max: u64 = match which % 4 { 0 => u8::MAX as u64, 1 => u16::MAX as u64, 2 => u32::MAX as u64, _ => u64::MAX };
+        let got: Option<u64> = match which % 4 {
+            0 => minicbor::decode::<u8>(i).ok().map(u64::from), 1 => minicbor::decode::<u16>(i).ok().map(u64::from),
+            2 => minicbor::decode::<u32>(i).ok().map(u64::from), _ => minicbor::decode::<u64>(i).ok(),
+        };
+        match expect_arg(i, 0, 0, max) { Some((x, _)) => assert!(got == Some(x)), None => assert!(got.is_none()) }
+    }
+
     /// the model is self-consistent: reading back a written head yields the same (major, value) — executed, not assumed
     #[kani::proof]
     fn model_head_roundtrip() {
